@@ -167,6 +167,15 @@ func runC09(c *Ctx, r *Run) {
 									ids[s] = map[string]bool{}
 								}
 								ids[s][rel] = true
+							} else if ph, isPhi := st.Val.(*ssa.Phi); isPhi && allConstStrings(ph) {
+								// one of several constants, chosen by a branch (offline / online variant)
+								for _, e := range ph.Edges {
+									s, _ := constString(e)
+									if ids[s] == nil {
+										ids[s] = map[string]bool{}
+									}
+									ids[s][rel] = true
+								}
 							} else {
 								r.Fail("CONST-1", c.FuncName(fn)+"|protocol-id-constant", c.Pos(st.Pos()), "ProtocolID is a constant", "ProtocolID is computed: "+path(st.Val))
 							}
@@ -535,4 +544,13 @@ func checkSessionIDForwarded(c *Ctx, r *Run, rule string) {
 				"NewSession receives "+path(call.Call.Args[1])+", which does not carry the bytes of the closure's sessionID parameter (at most its length): sessions started with different identifiers share tag, transcript and derived nonces")
 		})
 	}
+}
+
+func allConstStrings(ph *ssa.Phi) bool {
+	for _, e := range ph.Edges {
+		if _, ok := constString(e); !ok {
+			return false
+		}
+	}
+	return len(ph.Edges) > 0
 }
